@@ -1,8 +1,13 @@
 """C06 Oblivious transfer delivers exactly the chosen label."""
 import hashlib
+import os
 import re
+import sys
 
 import vlib
+
+sys.path.insert(0, os.path.dirname(os.path.abspath(__file__)))
+from t1 import run_t1  # noqa: E402  (T1 leaf translator tie, checks/t1.py)
 
 LEVEL = "proof"
 
@@ -16,6 +21,14 @@ THEOREMS = [
     "Mpc.C06_iknp_bits_old_fails",
     "Mpc.C06_iknp_bits_old_witness",
     "Mpc.C06_iknp_session",
+    # caller-provided output buffers (Model/IknpBuf.lean)
+    "Mpc.C06_iknp_transpose_into",
+    "Mpc.C06_iknp_receive_buffer_independent",
+    "Mpc.C06_iknp_or_store_zero_buffer_ok",
+    "Mpc.C06_iknp_or_store_dirty_witness",
+    "Mpc.C06_iknp_history_buffers",
+    "Mpc.C06_iknp_bits_dirty_partial",
+    "Mpc.C06_iknp_bits_dirty_witness",
     # COT / ROT with MITCCRH (Model/Cot.lean)
     "Mpc.C06_cot_delivers",
     "Mpc.C06_rot_consistent",
@@ -60,6 +73,7 @@ def source_facts(ctx):
 
 def run(ctx):
     ctx.prove("MpcVerif.Props.C06", THEOREMS)
+    run_t1(ctx, ["C06"])          # ot.xor = Iknp.xorBytes
     if ctx.tier == "thorough":
         ctx.leanchecker("MpcVerif.Props.C06")
     ctx.build_drv()
@@ -72,11 +86,13 @@ def run(ctx):
         for s in seeds:
             ops, out, meta = ctx.run_hx("iknp", n_iknp, seed=s)
             ctx.absorb_meta(meta)
-            ctx.correspond("IKNP u-matrix chunks, label vectors, packed words byte-exact (seed %d)" % s, ops, out)
+            ctx.correspond("IKNP histories with named result buffers: u-matrix chunks, label vectors, packed words "
+                           "byte-exact (seed %d)" % s, ops, out)
             distinct_ops(ctx, ops)
             ops, out, meta = ctx.run_hx("cot", n_cot, seed=s)
             ctx.absorb_meta(meta)
-            ctx.correspond("COT/ROT transcripts and outputs, MITCCRH.Hash byte-exact (seed %d)" % s, ops, out)
+            ctx.correspond("COT/ROT histories with named result buffers: transcripts and outputs, MITCCRH.Hash "
+                           "byte-exact (seed %d)" % s, ops, out)
             distinct_ops(ctx, ops)
             ops, out, meta = ctx.run_hx("co-bytes", n_cob, seed=s)
             ctx.absorb_meta(meta)
@@ -98,10 +114,16 @@ def run(ctx):
                 "oracle_co_batches", "oracle_cohelpers_batches", "oracle_coxfer_batches", "oracle_rsa_batches",
                 "oracle_rsaxfer_batches", "oracle_cot_over_co_batches", "oracle_rot_over_co_batches"] + \
                ["cot_kind_%s_mal_%s_shared_%s" % (k, m, sh) for k in "cr" for m in ("true", "false")
-                for sh in ("true", "false")]
+                for sh in ("true", "false")] + \
+               ["%s_%s" % (p, c) for p in ("iknp_label_buf", "iknp_bits_rbuf", "iknp_bits_sbuf", "cot_buf")
+                for c in ("fresh", "kept", "kept_subslice", "ones", "bytefill", "random")] + \
+               ["iknp_label_buf_nonzero_before_call", "cot_buf_nonzero_before_call", "rot_send_into_nonzero_wires",
+                "iknp_bits_clean_buffers", "iknp_bits_dirty_buffers",
+                "co_buf_kept", "co_buf_ones", "co_buf_random", "cot_over_co_buf_random", "rot_over_co_buf_random"]
         missing = [k for k in need if not c.get(k)]
         ctx.oblige("generator reached every size class (n mod 8/64/128/512 in {0,+1,-1}, 5 chunks), all three IKNP "
-                   "forms, every COT/ROT mode x sharing combination and all five implementations",
+                   "forms, every COT/ROT mode x sharing combination, all five implementations, and every class of "
+                   "caller-provided result buffer (fresh, kept from the previous call, sub-slice, ones, byte fill, random)",
                    not missing, "not reached: %s" % missing)
         # the ReceiveBits defect fixed by 564d319 must NOT reproduce: the inputs on which the old code
         # failed (partial last word, Delta.Bit(0) = 1, a set choice bit in the tail) are exercised and
@@ -114,6 +136,7 @@ def run(ctx):
                    "none generated")
         ctx.oblige("the ReceiveBits defect fixed by 564d319 does not reproduce on the real code", back == 0,
                    "%d packed-bit batches fail exactly as the old code (Lean: C06_iknp_bits_old_fails)" % back)
+        ctx.coverage["packed_bit_calls_on_nonzero_buffers_with_wrong_bits"] = c.get("bits_dirty_buffer_wrong_batches", 0)
         if ctx.broken and not [f for f in ctx.fails if not ctx.is_known(f)]:
             # widened search for a concrete failing input (oracle only)
             for s in range(ctx.seed + 7000, ctx.seed + 7004):
@@ -123,6 +146,13 @@ def run(ctx):
                 if [f for f in ctx.fails if not ctx.is_known(f)]:
                     break
     ctx.coverage["rule"] = (
+        "RESULT BUFFERS (iknp, cot modes; in the op lines, so the model runs the same contents): every call gets a fresh "
+        "zeroed slice (2/5) or a slice [off, off+needed+extra) of the party's long-lived array of the history - kept as "
+        "the earlier calls left it (the buffer of the previous call), or overwritten first with 0xff, another byte, or an "
+        "AES-CTR stream; label form extra = 0 (Receive requires equal lengths), packed-bit form also longer-than-needed "
+        "slices; both SendBits and ReceiveBits buffers; ROT.Send into wires that held other labels; frame check: no array "
+        "position outside the slice changes. proto mode: result slices fresh / previous array / window of ones or random "
+        "bytes (oracle only). "
         "iknp/cot modes: a fixed sweep over 51 boundary sizes (1..2049: n mod 8/64/128/512 in {0,+-1}) then random "
         "sizes biased to k*m+{-1,0,1}, m in {8,64,128,512}, up to 4*512+1; 1-4 calls per initialised pair mixing "
         "label / malicious-label / packed-bit forms; choices all-0, all-1, random, alternating, tail-only; random "
@@ -141,13 +171,20 @@ def run(ctx):
         "Chou-Orlandi: the theorems are in an abstract commutative group and exclude the point-at-infinity encodings (probability ~2^-256 on P-256); that P-256 (crypto/elliptic, and its Lean re-implementation Model/P256.lean executed for the byte-exact comparison) is such a group is trusted, not proved",
         "RSA: crypto/rsa keys are trusted to satisfy (k^e)^d = k mod N; math/big Exp with a negative base is modelled as Euclidean (non-negative) reduction; PKCS#1 block type 1 pad/unpad round trip is a hypothesis of the theorem",
         "malicious mode: only honest runs are covered here (the consistency check itself is C15); its messages seed2/x/t0/t1 are not compared with a model",
-        "packed-bit form is run on zeroed result buffers (SendBits/ReceiveBits OR into the caller's buffer)",
+        "KNOWN FINDING C06-bits-or-into-caller-buffer: SendBits/ReceiveBits OR their n result bits into the caller's words "
+        "instead of overwriting them (their doc comments say 'Existing contents are overwritten'): on a buffer that is not "
+        "zero the packed-bit correlation fails exactly at positions that held a 1 (C06_iknp_bits_dirty_witness; "
+        "C06_iknp_bits_dirty_partial proves result = old content OR correct result); gmw/triples.go passes fresh slices",
         "p2p.Conn / ot.Pipe are trusted transports (C11)",
     ]
     return ctx.finish(
         "Theorems (Props/C06.lean): IKNP label form received_i = sent_i xor choice_i*Delta for every n, every PRG "
         "stream family and every sequence of calls with the per-column stream positions as explicit state; "
-        "createLabels is the bit-matrix transpose; packed-bit form r_j = s_j xor (Delta.Bit(0) and c_j) for every n "
+        "createLabels is the bit-matrix transpose and writes every destination position whatever it held "
+        "(C06_iknp_transpose_into), so Receive's rows are independent of the initial content of the caller's result "
+        "buffer (C06_iknp_receive_buffer_independent) and every history of calls with arbitrary result buffers - fresh, "
+        "the previous call's, windows of arrays with arbitrary content - delivers (C06_iknp_history_buffers; the "
+        "OR-into-destination variant is shown equal on zero buffers and wrong on a non-zero one); packed-bit form r_j = s_j xor (Delta.Bit(0) and c_j) for every n "
         "(the pre-564d319 word count is kept as receiveBitsOld with its negation theorem); COT/ROT deliver for every batch size and every MITCCRH cipher; CO masks agree and the HEAD helpers deliver in every commutative group, COT over IKNP over CO base OTs (roles reversed) delivers (C06_iknp_over_co); "
         "RSA OT recovers the blinding key. Tie: real IKNP sender/receiver, COT, ROT, MITCCRH run with "
         "deterministic tapes, u-matrix bytes / label vectors / packed words / ciphertexts compared byte for byte with "
